@@ -647,6 +647,31 @@ def share_vars(rng, args: List[Dict[str, Any]], only_dir: Optional[str] = None) 
             args[i]["sv"] = root
 
 
+def split_family(rng, args: List[Dict[str, Any]]) -> None:
+    """two (or three) same-typed string variables of ONE service whose allowed lists are different
+    splittings of the same joined text (`['LF,RF', 'Master']` vs `['LF', 'RF', 'Master']`), members
+    containing separator-like characters; or the same type / range with different lists"""
+    idx = [i for i, a in enumerate(args) if a["dir"] == "in" and a.get("sv") is None
+           and not any(b.get("sv") == i for b in args)]
+    if len(idx) < 2:
+        return
+    rng.shuffle(idx)
+    chosen = idx[: rng.choice([2, 2, 3])]
+    tokens = rng.sample(["LF", "RF", "Master", "a b", "x", "C:1", "p|q", "1", "Z;z"], rng.choice([3, 4]))
+    for n, i in enumerate(chosen):
+        a = args[i]
+        a["type"] = rng.choice(["string", "string", "char", "uri"]) if n == 0 else args[chosen[0]]["type"]
+        a.pop("range", None)
+        if n == 0:
+            a["allowed"] = list(tokens)
+        else:
+            sep = rng.choice([",", ",", ",", ";", "|", " ", ":"])
+            k = rng.randrange(len(tokens) - 1)
+            a["allowed"] = tokens[:k] + [tokens[k] + sep + tokens[k + 1]] + tokens[k + 2:]
+            if rng.random() < 0.3:      # same type, different list altogether
+                a["allowed"] = [t + sep for t in tokens[:2]]
+
+
 def rand_decl(rng) -> Dict[str, Any]:
     n_in = rng.choice([0, 1, 1, 2, 2, 3, 4, 5, 6])
     n_out = rng.choice([0, 0, 1, 2])
@@ -655,6 +680,8 @@ def rand_decl(rng) -> Dict[str, Any]:
     names = rand_names(rng, dirs)
     args = [rand_arg_decl(rng, nm, d) for nm, d in zip(names, dirs)]
     share_vars(rng, args)
+    if rng.random() < 0.25:
+        split_family(rng, args)
     return {
         "strict": rng.random() < 0.8,
         "device_url": rng.choice(DEVICE_URLS),
@@ -886,6 +913,11 @@ CORPUS = [
                                                      {"name": "C", "dir": "in", "type": "boolean"}]),
      "ops": [["call", [["A", ["s", "007"]], ["B", ["i", "7"]], ["C", ["b", True]]]], ["call", [["A", ["i", "7"]], ["B", ["i", "7"]], ["C", ["b", True]]]],
              ["call", [["A", ["s", "x"]], ["B", ["i", "10"]], ["C", ["b", False]]]]]},
+    # two string variables of one service whose allowed lists are different splittings of one joined text
+    {"decl": dict(_decl1("string"), args=[{"name": "A", "dir": "in", "type": "string", "allowed": ["LF", "RF", "Master"]},
+                                          {"name": "B", "dir": "in", "type": "string", "allowed": ["LF,RF", "Master"]}]),
+     "ops": [["call", [["A", ["s", "LF"]], ["B", ["s", "LF,RF"]]]], ["call", [["A", ["s", "LF"]], ["B", ["s", "LF"]]]],
+             ["call", [["A", ["s", "LF,RF"]], ["B", ["s", "Master"]]]], ["call", [["A", ["s", "RF"]], ["B", ["s", "Master"]]]]]},
     # histories on one object
     {"decl": _decl1("ui2", range={"min": "0", "max": "100"}),
      "ops": [["call", [["X", ["i", "101"]]]], ["call", [["X", ["i", "101"]]]], ["call", [["X", ["i", "5"]]]],
